@@ -69,6 +69,12 @@ def _callbacks():
     for name, tpl in _CB.items():
         K["cb_loop_" + name] = (lambda t: lambda c, p: ("", (t % ("while(%s){}" % _c(c))) + ";"))(tpl)
         K["loop_cb_" + name] = (lambda t: lambda c, p: ("", "while(%s){ %s; }" % (_c(c), t % "1")))(tpl)
+    # large fan-out with short callbacks: the callbacks' instructions must count towards the poll
+    big = "var B9=[]; for (var b9=0;b9<150;b9++){ B9.push((b9*37)%101); } "
+    K["loop_big_forEach"] = lambda c, p: ("", big + "while(%s){ B9.forEach(function(x){ return x+1; }); }" % _c(c))
+    K["loop_big_map_nested"] = lambda c, p: ("", big + "while(%s){ B9.map(function(x){ return [x,x+1,x+2].map(function(y){ return y*2; }); }); }" % _c(c))
+    K["loop_big_sort_cmp"] = lambda c, p: ("", big + "while(%s){ B9.slice().sort(function(a,b){ return a-b; }); }" % _c(c))
+    K["loop_big_reduce"] = lambda c, p: ("", big + "while(%s){ B9.reduce(function(a,x){ return a+x; }, 0); }" % _c(c))
     K["loop_sort_default"] = lambda c, p: ("", "var a9=[5,3,9,1]; while(%s){ a9.slice().sort(); }" % _c(c))
     return K
 
@@ -527,7 +533,7 @@ def execute(case):
         "clock_reads": out["clock_reads"], "landing": landing(out.get("sites", [])),
         "fired": fired + (["deadline"] if cross is not None else []),
         "n_probes": len(probes), "reenters": reenters[0],
-        "digest": W.digest(),
+        "digest": W.digest(), "bdigest": W.bdigest(),
     }
     # probes that fired long after the deadline (swallowed stop)
     late = [k for (w, t, k) in probes if cross is not None and w > cross + B_OVERRUN and k in ("c", "r", "l", "f")]
